@@ -8,6 +8,6 @@ CONSTANTS
   IntVal <- IntValInt
   Travs <- AllTravs
   LenEnabled = TRUE
-  MaxSteps = 7
+  MaxSteps = 6
   ViewHist = 1
   EmitAll = TRUE
